@@ -167,7 +167,20 @@ def marks(doc, rnd):
     m, k = _fresh_method(doc, "evolved/proposedThing")
     doc["requests"].append({"method": m, "typeName": f"EvolvedProposedThing{k}Request", "messageDirection": "clientToServer",
                             "params": R(n), "result": B("null"), "proposed": True})
-    return f"proposed / deprecated / since marks ({s['name']}, new proposed structure {n} and request)"
+    # the marks spelt out with their default: `"proposed": false` says the same as leaving the key out (lsp.schema.json: "If omitted,
+    # the ... is final"), so such items must NOT be feature-gated / marked proposed
+    finals = [x for x in doc["structures"] if not x.get("proposed") and x["properties"] and x is not s]
+    for x in rnd.sample(finals, 3):
+        x["proposed"] = False
+        x["properties"][0].setdefault("proposed", False)
+    e = rnd.choice([x for x in doc["enumerations"] if not x.get("proposed")])
+    e["proposed"] = False
+    e["values"][0].setdefault("proposed", False)
+    a = rnd.choice([x for x in doc["typeAliases"] if not x.get("proposed")])
+    a["proposed"] = False
+    q = rnd.choice([x for x in doc["requests"] if not x.get("proposed")])
+    q["proposed"] = False
+    return f"proposed / deprecated / since marks ({s['name']}, new proposed structure {n} and request; explicit proposed=false on final items incl. {e['name']}, {a['name']}, {q['method']})"
 
 
 def remove_optional(doc, rnd):
